@@ -94,3 +94,18 @@ Theorem C11_case_refuted_before_fix_D :
   exec_l wD_case_body Normal /\ c11_case_violations only_D wD_case = [].
 Proof. exact C11_case_refuted_D. Qed.
 Print Assumptions C11_case_refuted_before_fix_D.
+
+(* ({get a() { try { while ((v1(), true)) { } } catch (e) { } }})   - before fix F the getter was not reported *)
+Theorem C11_getter_refuted_before_fix_F :
+  wf wF_getter /\ p_getter wF_getter = true /\ prog_falls_off_end wF_getter /\
+  ~ In (p_start wF_getter) (getter_return faithful wF_getter) /\ c11_getter_violation only_F wF_getter = false.
+Proof. exact C11_getter_refuted_F. Qed.
+Print Assumptions C11_getter_refuted_before_fix_F.
+
+(* switch (d) { case 0: try { while ((v1(), true)) { } } catch (e) { } case 1: v999(); } *)
+Theorem C11_case_refuted_before_fix_F :
+  wf wF_case /\ sub_stmts (SSwitch 15 wF_case_cases) (p_body wF_case) /\ prog_enters wF_case 15 /\
+  case_in wF_case_body wF_case_cases /\ any_stops (analyze faithful wF_case) wF_case_body = true /\
+  exec_l wF_case_body Normal /\ c11_case_violations only_F wF_case = [].
+Proof. exact C11_case_refuted_F. Qed.
+Print Assumptions C11_case_refuted_before_fix_F.
